@@ -229,7 +229,30 @@ def analyse_automaton(eng, A):
                     steps.append((sid, pc, "step", sid2, depth_after(eng, s, info), 0))
             else:
                 raise E.Unsupported(f"outcome {out.kind}")
-    axioms = list(eng.axioms)
+    # the heap of this analysis is concrete and there is one symbolic token: the quantified schemas about token types are
+    # instantiated at the token-type terms that occur on the paths (quantifier-free queries: a failing one yields a model),
+    # schemas about heap structure (dictionary key storage) are not needed and are left out (fewer assumptions: still sound)
+    def _tok_terms(fs):
+        out, seen, work = {}, set(), list(fs)
+        while work:
+            t = work.pop()
+            if t.get_id() in seen:
+                continue
+            seen.add(t.get_id())
+            if z3.is_app(t):
+                if t.decl().name().startswith("tok_in_") and t.num_args() == 1 and not z3.is_var(t.arg(0)):
+                    out[t.arg(0).get_id()] = t.arg(0)
+                work.extend(t.children())
+        return list(out.values())
+    ground = _tok_terms([p for st_ in steps for p in st_[1]])
+    axioms = []
+    for a in eng.axioms:
+        if z3.is_quantifier(a):
+            if a.num_vars() == 1 and "tok_in_" in a.body().sexpr():
+                for t in ground:
+                    axioms.append(z3.substitute_vars(a.body(), t))
+        else:
+            axioms.append(a)
     dv = info["depth_vars"]
     # ---- Houdini
     cand = {(sid, key, ci) for sid in info["state_ref"] for key in dv for ci in range(len(CANDS))}
